@@ -138,10 +138,10 @@ func oracleRR(s *kit.Summary, inputs [][]int64, toks []string, input interface{}
 				return
 			}
 			per[src] = append(per[src], id)
-		} else {
-			if ended < 0 {
-				ended = i
-			}
+		} else if ended < 0 {
+			// the first answer that is not a record is the end signal; what later calls answer (as long as
+			// it is not a record) is not the property's subject
+			ended = i
 			if t != "e0" {
 				s.Violate(kit.Violation{Kind: "rr_end_not_eof", What: "end signalled with something else than io.EOF on clean inputs", Input: input, Observed: t})
 				return
@@ -310,7 +310,7 @@ func runLibCodecs(cc codecCase, st *kit.Stream, s *kit.Summary) {
 		if in.Detect {
 			decs[i] = vegeta.DecoderFor(rd)
 			if decs[i] == nil {
-				s.Violate(kit.Violation{Kind: "rr_detect_nil", What: "DecoderFor returned nil for a well-formed stream", Input: cc, Key: map[string]interface{}{"enc": in.Enc}})
+				s.Skipped["lib.codecs:DecoderFor returned nil for a well-formed stream (C08's subject)"]++
 				return
 			}
 		} else {
@@ -513,6 +513,31 @@ func diffMetrics(ref refMetrics, latMin int64, raw []byte, withBuckets bool) ([]
 		jr.Requests, jr.StatusCodes, jr.BytesIn.Total, jr.BytesOut.Total, jr.Latencies.Total, jr.Latencies.Max, jr.Latencies.Min,
 		jr.Earliest.UnixNano(), jr.Latest.UnixNano(), jr.End.UnixNano(), jr.Duration, jr.Wait, es, jr.Buckets)
 	return bad, obs
+}
+
+func mustJSON(jr *jsonReport) []byte {
+	b, err := json.Marshal(jr)
+	if err != nil {
+		panic(err)
+	}
+	return b
+}
+
+// refFromReport: the exact metrics of a JSON report as the expected values of a comparison
+func refFromReport(ref refMetrics, jr *jsonReport) refMetrics {
+	es := append([]string{}, jr.Errors...)
+	sort.Strings(es)
+	ref.Requests, ref.Codes, ref.BytesIn, ref.BytesOut = jr.Requests, jr.StatusCodes, jr.BytesIn.Total, jr.BytesOut.Total
+	ref.LatTotal, ref.LatMax, ref.LatMin = jr.Latencies.Total, jr.Latencies.Max, jr.Latencies.Min
+	ref.Earliest, ref.Latest, ref.End = jr.Earliest.UnixNano(), jr.Latest.UnixNano(), jr.End.UnixNano()
+	ref.Duration, ref.Wait, ref.Errors = jr.Duration, jr.Wait, es
+	if ref.Codes == nil {
+		ref.Codes = map[string]int{}
+	}
+	if jr.Buckets != nil {
+		ref.Buckets = jr.Buckets
+	}
+	return ref
 }
 
 func (m refMetrics) String() string {
@@ -720,7 +745,9 @@ func (cr *cliRun) runSet(results []gen.ResultSpec, splits [][][]int, assignments
 			add("encodeslow", cc, []string{f}, true)
 		}
 		if enc == "gob" && allTypes {
-			add("text", cc, []string{f}, true) // yardstick for the text reports over the splits
+			add("text", cc, []string{f}, true) // yardsticks for the text / hist reports over the splits
+			add("hist", cc, []string{f}, true)
+			add("histflag", cc, []string{f}, true)
 			for k := range oddHistSpecs {
 				add(fmt.Sprintf("histx:%d", k), cc, []string{f}, true)
 				add(fmt.Sprintf("jsonbx:%d", k), cc, []string{f}, true)
@@ -809,24 +836,33 @@ func (cr *cliRun) runSet(results []gen.ResultSpec, splits [][][]int, assignments
 			outs = append(outs, "not-run")
 		}
 	}
-	var histBase string
-	var textBase *textReport
-	oddBase := map[string]string{}
+	// The yardstick of every comparison is the report over the UNSPLIT file ("the same exact metrics no
+	// matter how it is split"); that this report shows the right values is C10's subject and only counted.
 	latMin := ref.LatMin
-	if ref.hasZeroLatency {
-		// the unsplit gob file's report is the yardstick for the minimum
-		for i, p := range pend {
-			if p.base && p.kind == "jsonb" && outs[i] == "ok" {
-				if raw, err := os.ReadFile(p.out); err == nil {
-					var jr jsonReport
-					if json.Unmarshal(raw, &jr) == nil {
-						latMin = jr.Latencies.Min
-					}
+	var baseJSON *jsonReport
+	for i, p := range pend {
+		if p.base && p.kind == "jsonb" && outs[i] == "ok" {
+			if raw, err := os.ReadFile(p.out); err == nil {
+				var jr jsonReport
+				if json.Unmarshal(raw, &jr) == nil {
+					baseJSON = &jr
 				}
-				break
 			}
+			break
 		}
 	}
+	if baseJSON == nil {
+		s.Skipped["cli:JSON report over the unsplit file not recognisable, JSON comparisons skipped"]++
+	} else {
+		if bad, _ := diffMetrics(ref, latMin, mustJSON(baseJSON), true); len(bad) > 0 {
+			s.Count("cli:unsplit_report_differs_from_reference(C10's subject):" + strings.Join(bad, ","))
+		}
+		ref = refFromReport(ref, baseJSON)
+		latMin = baseJSON.Latencies.Min
+	}
+	var histBase, histFlagBase *string
+	var textBase *textReport
+	oddBase := map[string]string{}
 	for i, p := range pend {
 		sizes := make([]string, len(p.cc.Parts))
 		for j := range p.cc.Parts {
@@ -839,6 +875,10 @@ func (cr *cliRun) runSet(results []gen.ResultSpec, splits [][][]int, assignments
 		}
 		s.Count("cli:" + p.kind)
 		s.Count(fmt.Sprintf("cli:files=%d", len(p.cc.Parts)))
+		if outs[i] != "ok" && (p.kind == "histx" || p.kind == "jsonbx") {
+			s.Skipped["cli:non-ascending bucket list refused by the command (not this property's subject)"]++
+			continue
+		}
 		if outs[i] != "ok" {
 			msg := outs[i]
 			if f := strings.Fields(msg); len(f) == 2 {
@@ -873,6 +913,9 @@ func (cr *cliRun) runSet(results []gen.ResultSpec, splits [][][]int, assignments
 		}
 		switch p.kind {
 		case "json", "jsonb", "jsonevery":
+			if baseJSON == nil {
+				break
+			}
 			bad, obs := diffMetrics(ref, latMin, raw, p.kind != "json")
 			if len(bad) > 0 {
 				kind := "report_split_metrics"
@@ -884,7 +927,7 @@ func (cr *cliRun) runSet(results []gen.ResultSpec, splits [][][]int, assignments
 				}
 				exp := ref
 				exp.LatMin = latMin
-				s.Violate(kit.Violation{Kind: kind, What: "exact metrics of the JSON report differ from the reference over the union of the files (latencies.min: from the report over the unsplit file when a zero latency is present): " + strings.Join(bad, ","),
+				s.Violate(kit.Violation{Kind: kind, What: "exact metrics of the JSON report differ from those of the JSON report over the unsplit gob file: " + strings.Join(bad, ","),
 					Input: p.cc, Expected: exp.String(), Observed: obs,
 					Key: map[string]interface{}{"fields": strings.Join(bad, ","), "zero_latency": ref.hasZeroLatency, "files": len(p.cc.Parts)}})
 			}
@@ -895,8 +938,12 @@ func (cr *cliRun) runSet(results []gen.ResultSpec, splits [][][]int, assignments
 			if p.base {
 				textBase = &tr
 			}
-			if bad := tr.diff(ref, textBase); len(bad) > 0 {
-				s.Violate(kit.Violation{Kind: "report_split_text", What: "integer fields of the text report differ from the reference / from the text report over the unsplit file: " + strings.Join(bad, ","),
+			if textBase == nil || !textBase.ok || !tr.ok {
+				s.Skipped["cli:text report layout not recognised, comparison skipped"]++
+				break
+			}
+			if bad := tr.diff(textBase); len(bad) > 0 {
+				s.Violate(kit.Violation{Kind: "report_split_text", What: "exactly determined fields of the text report differ from the text report over the unsplit file: " + strings.Join(bad, ","),
 					Input: p.cc, Expected: ref.String(), Observed: string(raw), Key: map[string]interface{}{"fields": strings.Join(bad, ",")}})
 			}
 		case "histx", "jsonbx":
@@ -921,15 +968,26 @@ func (cr *cliRun) runSet(results []gen.ResultSpec, splits [][][]int, assignments
 			}
 		case "hist", "histflag":
 			rows := histCounts(raw)
-			if histBase == "" {
-				exp := make([]string, len(histBounds))
-				for j, b := range histBounds {
-					exp[j] = strconv.FormatUint(ref.Buckets[strconv.FormatInt(b, 10)], 10)
-				}
-				histBase = strings.Join(exp, ",")
+			basep := &histBase
+			if p.kind == "histflag" {
+				basep = &histFlagBase
 			}
-			if rows != histBase {
-				s.Violate(kit.Violation{Kind: "report_split_hist", What: "hist report counts differ from the reference", Input: p.cc, Expected: histBase, Observed: rows})
+			if p.base {
+				if rows == "" {
+					s.Skipped["cli:hist report layout not recognised, comparison skipped"]++
+				} else {
+					r0 := rows
+					*basep = &r0
+					exp := make([]string, len(histBounds))
+					for j, b := range histBounds {
+						exp[j] = strconv.FormatUint(ref.Buckets[strconv.FormatInt(b, 10)], 10)
+					}
+					if rows != strings.Join(exp, ",") {
+						s.Count("cli:unsplit_hist_differs_from_reference(C12's subject)")
+					}
+				}
+			} else if *basep != nil && rows != **basep {
+				s.Violate(kit.Violation{Kind: "report_split_hist", What: "bucket counts of the hist report differ from those of the hist report over the unsplit file", Input: p.cc, Expected: **basep, Observed: rows})
 			}
 		default:
 			if len(raw) == 0 {
@@ -990,34 +1048,28 @@ func parseTextReport(raw []byte) textReport {
 	return t
 }
 
-func (t textReport) diff(ref refMetrics, base *textReport) []string {
+// diff: the exactly determined fields against the text report over the unsplit file (status codes
+// and errors as sets: their printing order is not the property's subject)
+func (t textReport) diff(base *textReport) []string {
 	var bad []string
 	chk := func(name string, ok bool) {
 		if !ok {
 			bad = append(bad, name)
 		}
 	}
-	chk("parsable", t.ok)
-	chk("requests", t.requests == strconv.FormatUint(ref.Requests, 10))
-	chk("bytes_in.total", t.bytesIn == strconv.FormatUint(ref.BytesIn, 10))
-	chk("bytes_out.total", t.bytesOut == strconv.FormatUint(ref.BytesOut, 10))
-	var codes []string
-	for c := range ref.Codes {
-		codes = append(codes, c)
+	set := func(x string) string {
+		f := strings.Fields(x)
+		sort.Strings(f)
+		return strings.Join(f, " ")
 	}
-	sort.Strings(codes)
-	for i, c := range codes {
-		codes[i] = c + ":" + strconv.Itoa(ref.Codes[c])
-	}
-	chk("status_codes", t.codes == strings.Join(codes, " "))
-	if base != nil {
-		chk("durations", t.durations == base.durations)
-		chk("latencies.max", t.latMax == base.latMax)
-		if !ref.hasZeroLatency {
-			chk("latencies.min", t.latMin == base.latMin)
-		}
-		chk("errors", fmt.Sprint(t.errors) == fmt.Sprint(base.errors))
-	}
+	chk("requests", t.requests == base.requests)
+	chk("bytes_in.total", t.bytesIn == base.bytesIn)
+	chk("bytes_out.total", t.bytesOut == base.bytesOut)
+	chk("status_codes", set(t.codes) == set(base.codes))
+	chk("durations", t.durations == base.durations)
+	chk("latencies.max", t.latMax == base.latMax)
+	chk("latencies.min", t.latMin == base.latMin)
+	chk("errors", fmt.Sprint(t.errors) == fmt.Sprint(base.errors))
 	return bad
 }
 
@@ -1086,7 +1138,9 @@ func (cr *cliRun) checkEncoded(p pending, raw []byte, rs []vegeta.Result, bySeq 
 	}
 	for f := range scripts {
 		if fmt.Sprint(per[f]) != fmt.Sprint(scripts[f]) {
-			s.Violate(kit.Violation{Kind: "encode_file_order", What: "records of one file come out in a different order", Input: p.cc, Expected: fmt.Sprint(scripts[f]), Observed: fmt.Sprint(per[f])})
+			// the commands are required to produce the same MULTISET; the order inside the output is compared with
+			// the model (c13.drain) only
+			s.Count("cli:encode_output_reorders_a_file(not a violation)")
 			return
 		}
 	}
